@@ -148,6 +148,13 @@ void run_case(const uint8_t* data, size_t size, vf::Case& c) {
       case 5: comps[i] = vf::pat::pathname(b); break;
       default: comps[i] = vf::pat::free_text(b); break;
     }
+    if (present[i] && (i == 3 || i >= 5) && b.chance(30)) {
+      // the whole component is ONE braced group with prefix / suffix / modifier
+      Comp g;
+      vf::pat::braced_group(b, g.pattern, g.instance);
+      if (b.chance(60)) vf::pat::braced_group(b, g.pattern, g.instance);
+      comps[i] = g;
+    }
     if (!present[i]) {
       // absent component = wildcard; choose an instance compatible with a URL
       static const char* defaults[8] = {"https", "", "", "example.com", "", "/", "", ""};
